@@ -7,10 +7,13 @@ reference to something outside is unchanged.  Cloning modifies neither the sourc
 already present in the destination, and later edits to the copy are never visible in the source
 (and vice versa); applying a pass to a clone leaves the original module unchanged."
 
-Proved kernel: Operation.clone_without_regions (operand / successor remapping through the mappers,
-fresh attribute and property dictionaries, results registered in the value mapper, frame).  The
-whole-tree statement for clone / Region.clone_into / apply_to_clone is decided by the bounded
-stand-in with an independent isomorphism oracle.
+Proved: Operation.clone_without_regions (operand / successor remapping through the mappers, fresh
+attribute and property dictionaries, results registered in the value mapper, frames) and Operation.clone
+(after its final walk every operand of every op of the copy is the image of the source operand under
+the FINAL value mapper - own results and use-before-def included - and no operand list of the source
+changes), the latter on top of the former's contract and an assumed contract of Region.clone_into.
+The whole-tree statement for Region.clone_into / apply_to_clone is decided by the bounded stand-in
+with an independent isomorphism oracle.
 """
 
 from __future__ import annotations
@@ -172,7 +175,177 @@ class CloneWithoutRegions(Spec):
                 st.dict_dom(old.sel("attributes", me)) == old.dict_dom(old.sel("attributes", me)),
                 st.dict_vals(old.sel("properties", me)) == old.dict_vals(old.sel("properties", me)))),
             C("block-mapper-untouched", z3.And(st.dict_dom(bm) == old.dict_dom(bm), st.dict_vals(bm) == old.dict_vals(bm))),
+            C("other-entries-of-the-value-mapper-untouched", forall([x], z3.Implies(
+                forall([j], z3.Implies(z3.And(j >= 0, j < old.seq_len("results", me)), old.seq_el("results", me, j) != x)),
+                z3.And(st.dict_has(vm, x) == old.dict_has(vm, x), st.dict_val(vm, x) == old.dict_val(vm, x))))),
+            C("no-pre-existing-dictionary-other-than-the-value-mapper-changes", forall([d], z3.Implies(z3.And(d != vm, old.alloc()[d]),
+                                                                                                        z3.And(st.dict_dom(d) == old.dict_dom(d), st.dict_vals(d) == old.dict_vals(d))))),
         ]
+        return out
+
+    def native_search(self, inst, seed):
+        r = N02.explore("quick", seed)
+        return r["failures"][0] if r["failures"] else None
+
+
+
+# =============================================================================== Operation.clone (remap walk)
+WALK = z3.Function("walk_of", I, z3.ArraySort(I, I))  # pre-order walk of an op tree (the op itself first)
+NWALK = z3.Function("n_walk_of", I, I)
+INSIDE_R = z3.Function("defined_inside_region", I, I, z3.BoolSort())  # value v is a block argument / op result defined inside region r
+
+
+def b_set_operands(ex, st, args, kw):
+    """`op.operands = values` (setter): the operand tuple is replaced (use-list maintenance is C01's contract)."""
+    from pyvc import arith
+    from pyvc.engine import Res
+
+    sq = arith.as_seq(ex.to_seq_value(args[1], st))
+    st.seq_store("_operands", args[0].z, sq.arr, sq.n)
+    return [Res("val", None, st)]
+
+
+b_set_operands.modifies = ["_operands#len", "_operands#el"]
+
+
+class CwrCallee(CloneWithoutRegions):
+    """clone_without_regions as seen by Operation.clone: its discharged postcondition."""
+
+    def result_value(self, st, a):
+        return VRef(st.new_object("clone"), "Operation")
+
+    def pre(self, st, a):
+        return []
+
+    def post(self, old, st, a, res):
+        a2 = dict(a, _me=a["self"].z, _vm=a["value_mapper"].z, _bm=a["block_mapper"].z)
+        return [Clause(c.name, c.z, "aux") for c in CloneWithoutRegions.post(self, old, st, a2, res)]
+
+
+class CloneIntoCallee(Spec):
+    """
+    Region.clone_into(dest, 0, value_mapper, block_mapper, clone_operands=False) as seen by Operation.clone (ASSUMED here; exercised by the bounded
+    stand-in): registers every value defined inside the region in the value mapper, keeps existing entries, touches no operand list of a
+    pre-existing op.
+    """
+
+    prop, file, qualname = PROP, CORE, "Region.clone_into"
+    trusted = True
+    modifies = ["dict#dom", "dict#val"]
+
+    def post(self, old, st, a, res):
+        vm, bm = a["value_mapper"].z, a["block_mapper"].z
+        r = a["self"].z
+        x, d = z3.Ints("ci!x ci!d")
+        return [A("existing-entries-kept", forall([x], z3.Implies(old.dict_has(vm, x), z3.And(st.dict_has(vm, x), st.dict_val(vm, x) == old.dict_val(vm, x))))),
+                A("inside-values-registered", forall([x], z3.Implies(INSIDE_R(r, x), st.dict_has(vm, x)))),
+                A("other-dicts-unchanged", forall([d], z3.Implies(z3.And(d != vm, d != bm), z3.And(st.dict_dom(d) == old.dict_dom(d), st.dict_vals(d) == old.dict_vals(d)))))]
+
+
+class CloneOp(Spec):
+    """
+    Operation.clone: after the final walk every operand of every op of the copy is the image, under the FINAL value mapper, of the
+    corresponding operand of the source (so references to values defined anywhere inside - the op's own results included - point into the
+    copy, whatever the definition order), and no operand list of the source changes.
+    """
+
+    prop, file, qualname = PROP, CORE, "Operation.clone"
+    modifies = ["dict#dom", "dict#val", "_operands#len", "_operands#el"]
+
+    def __init__(self):
+        spec = self
+
+        def b_walk(ex, st, args, kw):
+            from pyvc.engine import Res
+
+            o = args[0].z
+            if not o.eq(spec._me):
+                # ASSUMED shape of the copy (from the contracts of the cloning callees): same walk length as the source, fresh pairwise distinct ops
+                st.assume(spec._copy_walk_axioms(z3.Const("H0.alloc", z3.ArraySort(I, z3.BoolSort())), spec._me, o))
+            return [Res("val", VSeq(WALK(o), NWALK(o), "ref", "Operation"), st)]
+
+        self.calls = {"self.clone_without_regions": CwrCallee(), "region.clone_into": CloneIntoCallee(),
+                      ".walk": Builtin(b_walk, "op.walk(): the pre-order sequence of the op tree (uninterpreted); for the copy: same length as the source's, fresh distinct ops (ASSUMED)")}
+
+    @property
+    def globals(self):
+        def getattr_(ex, st, base, attr):
+            if attr == "operands":
+                return VSeq(st.seq_arr("_operands", base.z), st.seq_len("_operands", base.z), "ref", "SSAValue")
+            return None
+
+        return {"__getattr__": getattr_, "__setters__": {"operands": Builtin(b_set_operands, b_set_operands.__doc__)}}
+
+    def setup(self, st, inst):
+        me = st.declare_input("self", z3.Int("self"))
+        vm = st.declare_input("value_mapper", z3.Int("value_mapper"))
+        bm = st.declare_input("block_mapper", z3.Int("block_mapper"))
+        return {"self": VRef(me, "Operation"), "value_mapper": VRef(vm, "dict", ("dict", "ref", "ref")), "block_mapper": VRef(bm, "dict", ("dict", "ref", "ref")),
+                "clone_name_hints": inst["hints"], "clone_operands": inst["operands"], "_me": me, "_vm": vm, "_bm": bm}
+
+    def pre(self, st, a):
+        cw = CloneWithoutRegions()
+        out = CloneWithoutRegions.pre(cw, st, a)
+        me = a["_me"]
+        self._me = me
+        self._fentry = st.snapshot()
+        o, j, k = z3.Ints("cp!o cp!j cp!k")
+        al = st.alloc()
+        out += [AX("walk: the op itself comes first", forall([o], z3.Implies(o != 0, z3.And(NWALK(o) >= 1, WALK(o)[0] == o)), patterns=[NWALK(o)])),
+                A("the source tree is allocated", forall([j], z3.Implies(z3.And(j >= 0, j < NWALK(me)), z3.And(WALK(me)[j] != 0, al[WALK(me)[j]])))),
+                A("operand-lists-have-lengths", forall([o], st.seq_len("_operands", o) >= 0)),
+                A("regions-are-objects", forall([j], z3.Implies(z3.And(j >= 0, j < st.seq_len("regions", me)), st.seq_el("regions", me, j) != 0)))]
+        return out
+
+    def _copy_walk_axioms(self, entry_alloc, me, op):
+        """ASSUMED shape of the copy (from the contracts of the cloning callees): same walk length, fresh pairwise distinct ops."""
+        j, k = z3.Ints("cw!j cw!k")
+        return z3.And(NWALK(op) == NWALK(me),
+                      forall([j], z3.Implies(z3.And(j >= 0, j < NWALK(op)), z3.And(WALK(op)[j] != 0, z3.Not(entry_alloc[WALK(op)[j]])))),
+                      forall([j, k], z3.Implies(z3.And(j >= 0, k >= 0, j < NWALK(op), k < NWALK(op), j != k), WALK(op)[j] != WALK(op)[k])))
+
+    def inv(self, n, entry, st, a, lv):
+        me, vm, bm = a["_me"], a["_vm"], a["_bm"]
+        x, d, j, i = z3.Ints("ci!x ci!d ci!j ci!i")
+        env = lv["env"]
+        op = env["op"].z
+        if n == 0:
+            # for idx, region in enumerate(self.regions): region.clone_into(...)
+            fe = self._fentry
+            return [A("entries-kept", forall([x], z3.Implies(entry.dict_has(vm, x), z3.And(st.dict_has(vm, x), st.dict_val(vm, x) == entry.dict_val(vm, x))))),
+                    A("inside-values-of-processed-regions-registered", forall([j, x], z3.Implies(z3.And(j >= 0, j < lv["k"], INSIDE_R(fe.seq_el("regions", me, j), x)), st.dict_has(vm, x)))),
+                    A("operand-lists-untouched", z3.And(st.fld("_operands#len") == entry.fld("_operands#len"), st.arr2("_operands#el") == entry.arr2("_operands#el"))),
+                    A("other-dicts-unchanged", forall([d], z3.Implies(z3.And(d != vm, d != bm), z3.And(st.dict_dom(d) == entry.dict_dom(d), st.dict_vals(d) == entry.dict_vals(d))))),
+                    A("regions-of-both-ops-unchanged", z3.And(st.fld("regions#len") == entry.fld("regions#len"), st.arr2("regions#el") == entry.arr2("regions#el")))]
+        # for old, new in zip(self.walk(), op.walk()): new.operands = tuple(value_mapper.get(operand, operand) for operand in old.operands)
+        k = lv["k"]
+        m = lambda v: z3.If(entry.dict_has(vm, v), entry.dict_val(vm, v), v)
+        return [A("remapped-prefix", forall([j], z3.Implies(z3.And(j >= 0, j < k), z3.And(
+                    st.seq_len("_operands", WALK(op)[j]) == entry.seq_len("_operands", WALK(me)[j]),
+                    forall([i], z3.Implies(z3.And(i >= 0, i < entry.seq_len("_operands", WALK(me)[j])),
+                                           st.seq_el("_operands", WALK(op)[j], i) == m(entry.seq_el("_operands", WALK(me)[j], i)))))))),
+                A("other-operand-lists-untouched", forall([x], z3.Implies(forall([j], z3.Implies(z3.And(j >= 0, j < k), x != WALK(op)[j])),
+                                                                            z3.And(st.seq_len("_operands", x) == entry.seq_len("_operands", x), st.seq_arr("_operands", x) == entry.seq_arr("_operands", x))))),
+                A("mappers-unchanged", z3.And(st.arr2("dict#dom", True) == entry.arr2("dict#dom", True), st.arr2("dict#val") == entry.arr2("dict#val")))]
+
+    def post(self, old, st, a, res):
+        me, vm = a["_me"], a["_vm"]
+        op = res.z
+        j, i, x = z3.Ints("cq!j cq!i cq!x")
+        m = lambda v: z3.If(st.dict_has(vm, v), st.dict_val(vm, v), v)
+        out = [C("copy-is-a-new-object", z3.And(op != 0, op != me, z3.Not(old.alloc()[op]))),
+               C("no-operand-list-of-the-source-changes", forall([j], z3.Implies(z3.And(j >= 0, j < NWALK(me)), z3.And(
+                   st.seq_len("_operands", WALK(me)[j]) == old.seq_len("_operands", WALK(me)[j]), st.seq_arr("_operands", WALK(me)[j]) == old.seq_arr("_operands", WALK(me)[j]))))),
+               C("own-results-are-registered-in-the-final-mapper", forall([j], z3.Implies(z3.And(j >= 0, j < old.seq_len("results", me)), z3.And(
+                   st.dict_has(vm, old.seq_el("results", me, j)), st.dict_val(vm, old.seq_el("results", me, j)) == st.seq_el("results", op, j))))),
+               C("values-defined-inside-the-regions-are-registered-in-the-final-mapper",
+                 forall([j, x], z3.Implies(z3.And(j >= 0, j < old.seq_len("regions", me), INSIDE_R(old.seq_el("regions", me, j), x)), st.dict_has(vm, x))))]
+        if a["clone_operands"]:
+            out.append(C("every-operand-of-the-copy-is-the-image-of-the-source-operand-under-the-final-mapper (inside references point into the copy, outside ones are kept)",
+                         forall([j], z3.Implies(z3.And(j >= 0, j < NWALK(me)), z3.And(
+                             st.seq_len("_operands", WALK(op)[j]) == old.seq_len("_operands", WALK(me)[j]),
+                             forall([i], z3.Implies(z3.And(i >= 0, i < old.seq_len("_operands", WALK(me)[j])),
+                                                    st.seq_el("_operands", WALK(op)[j], i) == m(old.seq_el("_operands", WALK(me)[j], i)))))))))
         return out
 
     def native_search(self, inst, seed):
@@ -186,14 +359,19 @@ NATIVE = [("clone-entry-points", N02.explore)]
 def make_specs(tier):
     s = CloneWithoutRegions()
     s.instances = [{"hints": h, "operands": o} for h in (True, False) for o in (True, False)]
-    return [s]
+    c = CloneOp()
+    c.instances = [{"hints": True, "operands": o} for o in (True, False)]
+    return [s, c]
 
 
 ASSUMPTIONS = [
     "Operation.create / Operation.__init__ are a TRUSTED allocation contract (new op with the given operands, successors, dictionaries, fresh typed results)",
     "value_mapper / block_mapper are given (the `is None` default branches create empty dicts and are covered by the bounded stand-in)",
     "dict.copy returns a new dict with the same content; the name_hint setter only stores a name",
-    "Operation.clone, Region.clone, Region.clone_into, ModulePass.apply_to_clone (recursion over the tree, walk pairing): bounded stand-in only",
+    "Operation.clone is verified with clone_without_regions replaced by its discharged contract and Region.clone_into by an ASSUMED contract (registers every value defined "
+    "inside the region, keeps existing mapper entries, touches no operand list); the walk of the copy is ASSUMED to pair positionally with the walk of the source and to consist of "
+    "fresh pairwise distinct ops; walk_of / defined_inside_region are uninterpreted",
+    "Region.clone, Region.clone_into, ModulePass.apply_to_clone (recursion over the tree): bounded stand-in only",
 ]
 
 SPECS = make_specs(os.environ.get("VERIF_TIER", "quick"))
